@@ -35,7 +35,9 @@ Inductive case :=
 | KMaskZoom (m : barr) (g : qgeom) (out : res (((Q * Q) * (Q * Q)) * ((Q * Q) * (Q * Q)) * ((Z * Z) * qgeom)))
   (* ds.apply_mask(m1) [then .trimmed_after_convolution_from(k) when trim] then .apply_mask(m2): observed like KApplyMask *)
 | KApplyChain (data noise : zarr) (m1 m2 : barr) (k : option (Z * Z)) (trim : bool) (g : qgeom)
-              (out : res (barr * (list Z * list Z) * list (Q * Q))).
+              (out : res (barr * (list Z * list Z) * list (Q * Q)))
+  (* Grid2D.padded_grid_from(kernel_shape_native=k) of a grid on a frame of the given shape: shape of the padded grid's mask, the grid *)
+| KPadGrid (shape k : Z * Z) (g : qgeom) (out : res ((Z * Z) * list (Q * Q))).
 
 Definition geom_eqb (a b : qgeom) : bool :=
   let '(a0, a1, a2, a3) := a in let '(b0, b1, b2, b3) := b in
@@ -90,6 +92,9 @@ Definition agree (k : case) : bool :=
         (bind (dset_apply_mask 0 (dset_new data noise) m1 k) (fun s1 =>
          bind (match trim, k with true, Some k' => dset_trimmed 0 s1 k' | _, _ => Ok s1 end) (fun s2 =>
          bind (dset_apply_mask 0 s2 m2 k) (fun '(d, n, _) => Ok (observe_ds g d n))))) out
+  | KPadGrid sh k g out =>
+      res_eqb (prod_eqb zz_eqb (list_eqb qq_eqb))
+        (Ok ((fst sh + fst k - 1, snd sh + snd k - 1), @padded_grid_from QOps (fst sh) (snd sh) k g)) out
   end.
 
 (* ---- helpers of the specification side ---- *)
@@ -242,6 +247,20 @@ Definition spec_ok (k : case) : bool :=
                   (map (fun p => @pixel_centre_spec QOps (nrows m) (ncols m) g
                                     (fst p + (nrows m / 2 - fst rs / 2)) (snd p + (ncols m / 2 - snd rs / 2)))
                        (unmasked_coords m'))
+         | Raise _ => false
+         end
+  | KPadGrid sh k g out =>
+      (* odd kernel: pixel (i, j) of the (H + k0 - 1) x (W + k1 - 1) padded frame carries the coordinate of pixel
+         (i - (k0-1)/2, j - (k1-1)/2) of the original frame, all pixels listed in row-major order *)
+      negb ((1 <=? fst sh) && (1 <=? snd sh) && odd_kernel k)
+      || match out with
+         | Ok (sh', gr) =>
+             let R0 := fst sh + fst k - 1 in let R1 := snd sh + snd k - 1 in
+             zz_eqb sh' (R0, R1)
+             && list_eqb qq_eqb gr
+                  (flat_map (fun i => map (fun j => @pixel_centre_spec QOps (fst sh) (snd sh) g
+                                                       (Z.of_nat i - (fst k - 1) / 2) (Z.of_nat j - (snd k - 1) / 2))
+                                          (seq 0 (Z.to_nat R1))) (seq 0 (Z.to_nat R0)))
          | Raise _ => false
          end
   end.
